@@ -284,6 +284,8 @@ class ExprMixin:
                 return self.ok(st, self.py_str(base.fn.fi.name))
             if name == '__func__':
                 return self.ok(st, base.fn)
+            if name == '__name__' and isinstance(base.fn, BuiltinV):
+                return self.ok(st, self.py_str(base.fn.name.rsplit('.', 1)[-1]))
             raise Unsupported(f'attribute {name} of bound method', node)
         if isinstance(base, BuiltinV):
             return self.ok(st, BuiltinV(base.name + '.' + name))
@@ -383,8 +385,12 @@ class ExprMixin:
                 if c0 is not None and c0.opts.get('dispatch') == 'static':
                     self.assumptions_used.add(f'behavioural subtyping: every override of {f0.qualname} obeys its contract')
                     return outs + self.ok(st, BoundV(FuncV(f0), v))
+        if name == 'recreate_from' and __import__('os').environ.get('PYVC_DBG_FOREIGN'):
+            print('DBG foreign', v, 'cls', v.cls, 'cfg', self.config.get('user_results_foreign'),
+                  'ent', self.entails(st, z3.Select(st.CL, r) >= I(self.index.first_free_id), 3000),
+                  'isref>=', self.entails(st, r >= I(self.index.first_free_id), 3000))
         if v.cls is None and self.config.get('user_results_foreign') \
-                and self.entails(st, z3.Select(st.CL, r) >= I(self.index.first_free_id), 300):
+                and self.entails(st, z3.Select(st.CL, r) >= I(self.index.first_free_id), 1500):
             return outs + self.getattr_resolved(st, v, name, ('heap', None), node)
         cands = self.candidate_classes(st, v)
         # group candidates by how `name` resolves
